@@ -23,7 +23,7 @@ func init() {
 		Rule: "fault enumeration over lifecycle scenarios on an in-memory transport: configurations {tracking, client pings 0/20ms, plain/context-aware dialer, Connect/ConnectContext} x end causes {Close from 1, 3, 8 goroutines, " +
 			"EOF, read error, write error, context cancellation} x every unordered pair of causes fired from one barrier x traffic {idle, inbound backlog, outbound backlog by handler or user goroutines, handler on a gate / blocked in a send} " +
 			"x server {reading, not reading, bursts} x second Connect while connected (idle/busy), plus failing connects (no server, dial refused, refused-then-retry) and Close on an unconnected client. Counters and Connected() samples taken inside " +
-			"REGISTER/CONNECTED/DISCONNECTED handlers and return values are judged at quiescence (goroutine census shows no library goroutine). Poll mode: Connected() sampled 40k..400k times inside REGISTER/CONNECTED and by a user goroutine while 1..3 goroutines are being refused a second Connect. Loopback mode: event counts over real TCP sockets (see C07). Failing-connect kinds also: the connect context ending during a TLS handshake (events must agree with Connect's result) and 2..5 simultaneous Connect calls on an unconnected client (one connection, the rest refused); supervised-reconnect rounds with DISCONNECTED counts. distinct_nontrivial = distinct (cause set, library goroutines blocked on a queue/gate/socket at teardown) fingerprints.",
+			"REGISTER/CONNECTED/DISCONNECTED handlers and return values are judged at quiescence (goroutine census shows no library goroutine). Poll mode: Connected() sampled 40k..400k times inside REGISTER/CONNECTED and by a user goroutine while 1..3 goroutines are being refused a second Connect. Loopback mode: event counts over real TCP sockets (see C07). Failing-connect kinds also: the connect context ending during a TLS handshake (events must agree with Connect's result) and 2..5 simultaneous Connect calls on an unconnected client (one connection, the rest refused); supervised-reconnect rounds with DISCONNECTED counts. Poll mode ends every other round by server EOF while four application goroutines keep calling Connected() and String() (exactly one DISCONNECTED, Connected() false). Linger rounds: the DISCONNECTED handler reconnects and stays busy while the second connection registers, is renamed and ends (EOF, read error, Close, cancel): two REGISTER, two DISCONNECTED, a second connection never reported as ended is a violation with a dead-state proof. y- batches: the same against the schedule-perturbed copy (DESIGN 10.10). distinct_nontrivial = distinct (cause set, library goroutines blocked on a queue/gate/socket at teardown) fingerprints.",
 		Assumptions: []string{
 			"when the reconnect is issued from inside the DISCONNECTED handler, a coincident public Close is not generated (it may legitimately close the new connection)",
 			"a disconnect that never completes is reported under C07; here it makes the scenario inconclusive",
@@ -382,9 +382,18 @@ func c06ConcurrentConnects(c *Ctx, idx int, r interface{ Intn(int) int }) {
 	s.Conn.HandleFunc(client.REGISTER, func(_ *client.Conn, l *client.Line) { atomic.AddInt64(&regs, 1) })
 	s.Conn.HandleFunc(client.DISCONNECTED, func(_ *client.Conn, l *client.Line) { atomic.AddInt64(&discs, 1) })
 	// a dial that takes a moment widens the window in which the callers overlap
+	tracked := s.Conn.StateTracker() != nil
 	s.EP.Prepare(func(mc *rig.MemConn) {
 		for k := 0; k < r.Intn(50); k++ {
 			runtime.Gosched()
+		}
+		if tracked {
+			// this server talks first: by the time the refused callers return, the one connection there is has been
+			// welcomed and has joined a channel
+			mc.SendLine(":srv 001 me :Welcome")
+			mc.SendLine(":me!ident@host JOIN #cc")
+			mc.SendLine(":srv 353 me = #cc :me @op +voiced")
+			mc.SendLine(":srv 366 me #cc :End of NAMES")
 		}
 	})
 	n := 2 + r.Intn(4)
@@ -430,6 +439,13 @@ func c06ConcurrentConnects(c *Ctx, idx int, r interface{ Intn(int) int }) {
 		mc := s.EP.Last()
 		if dials == 1 && (!AwaitRegistration(mc) || !s.WireMarker(mc)) {
 			viol("unusable", "the connection that was established does not answer a PING")
+		} else if dials == 1 && tracked && s.FgMarker(mc) {
+			// the refused calls have all returned: what the one session has learnt is still there
+			ch := s.Conn.StateTracker().GetChannel("#cc")
+			if ch == nil || ch.Nicks["me"] == nil || ch.Nicks["op"] == nil {
+				viol("tracker-damaged", fmt.Sprintf("after the refused calls returned, the tracker of the connection that was established no longer holds the channel it joined (GetChannel(\"#cc\") = %v)", ch))
+			}
+			c.R.Count("concurrent_connects_with_tracker_traffic", 1)
 		}
 		CloseWatched(s.Conn)
 		rig.WaitNoLib(WaitShort, 400)
@@ -509,6 +525,18 @@ func c06CancelMidHandshake(c *Ctx, idx int, r interface{ Intn(int) int }) {
 // runC06Failures: connects that fail or are refused fire no event.
 func runC06Failures(c *Ctx) {
 	n := c.Pick(60, 2000)
+	// more rounds of simultaneous Connect calls (cheap ones): indices n .. n+extra
+	extra := c.Pick(150, 1500)
+	for idx := n; idx < n+extra; idx++ {
+		if !c.Want("fail", idx) {
+			continue
+		}
+		c.J.Log("CASE %s concurrent-connects", Case("fail", idx))
+		c06ConcurrentConnects(c, idx, rig.Rand(c.Seed, "C06fail", idx))
+		if c.R.NumViolations() > 6 {
+			return
+		}
+	}
 	for idx := 0; idx < n; idx++ {
 		if !c.Want("fail", idx) {
 			continue
